@@ -158,11 +158,33 @@ CLAIMS.update({
 CLAIMS["C26"]["text"] += " Array clone builds a fresh array from Clone.clone of every element (CLONE-DEEP)."
 CLAIMS["C10"]["text"] += " Scheduler accounting: the thread is always stepped by the literal unit under remaining_steps > 0, so GC work per instruction is independent of the embedder's budget (STEP-ACCOUNT); saved operands are GC roots (GC-ROOTS)."
 
+CLAIMS.update({
+    "C29": {
+        "text": "Decides two clauses: the lexer's comment-skipping loops stop exactly at their terminator - the block-comment loop condition, evaluated over the truth table of (char is '*', next is '/'), must equal 'not both' and then skip the 2-character terminator; a line comment must stop before the newline token (SCAN-TERM); "
+        "parse_delimited_list skips newlines before each element and accepts the separator or a newline after it (SEP).",
+        "note": "That re-printed programs parse to the same tree is not decided.",
+    },
+    "C31": {
+        "text": "Decides: the three precedence() functions, read as a table operator -> level through the lexer and parser tables, equal every row of the table in operators.md (PREC-TABLE); the Pratt loop breaks on `precedence <= binding_power` and recurses with the operator's own precedence (PRATT); "
+        "no token may start both a prefix operator and a term (FIRST-SET: one known finding, the negative-literal look-ahead).",
+        "note": "Known finding: `-2 % 3` groups differently from `-x % 3`.",
+    },
+    "C37": {
+        "text": "Decides the memory-safety sentence structurally: the set has no field-wise Clone/Copy and a hand-written Clone rebuilds by re-inserting; buffers grow only by push under the capacity check that swaps in a fresh buffer, and no reallocating Vec method is applied to them; "
+        "removal happens only in clear() together with the pointer tables, or as the pop undoing a duplicate's speculative push; no field or raw pointer is public (OWN-IDSET).",
+        "note": "Agreement with the map-plus-vector model is not decided.",
+    },
+    "C38": {
+        "text": "Decides: the raw write is bounded by the buffer it writes into - the buffer switch is guarded by a comparison with current_buf.len(), resets the offset, sizes the new buffer for value plus worst-case padding and keeps the old buffer (ARENA-BOUNDS); padding is computed from the address, not the offset, and recomputed after a switch (ARENA-ALIGN).",
+        "note": "Arithmetic exactness of the capacity computation beyond these dominance facts is not decided.",
+    },
+})
+
 NOT_APPLICABLE = {
     "C22": "which instance monomorphisation selects is computed from solved types of the user's program by unification/substitution; no structural fact short of a correctness proof of subst/fits_impl_ty decides it",
     "C25": "sortedness/stability is an algorithmic property of index arithmetic over arrays of arbitrary length; the structural facts available are far from sufficient",
     "C30": "literal denotation depends on character-level lexer behaviour on every string and on str::parse: value semantics, not code shape",
     "C35": "agreement of offset->node search with the resolver's keys is a relation between source ranges computed at run time",
 }
-for _p in ["C14", "C29", "C31", "C32", "C33", "C34", "C36", "C37", "C38"]:
+for _p in ["C14", "C32", "C33", "C36"]:
     NOT_APPLICABLE.setdefault(_p, PENDING)
